@@ -48,7 +48,7 @@ where
             algorithm,
             current_limit: Arc::new(AtomicUsize::new(initial_limit)),
             in_flight: Arc::new(AtomicUsize::new(0)),
-            semaphore: Arc::new(Semaphore::new(initial_limit)),
+            semaphore: Arc::new(Semaphore::new(initial_limit.min(Semaphore::MAX_PERMITS))),
         }
     }
 
@@ -125,7 +125,7 @@ where
         let current = self.current_limit.load(Ordering::Relaxed);
         if algorithm_limit > current {
             let diff = algorithm_limit - current;
-            self.semaphore.add_permits(diff);
+            add_permits_saturating(&self.semaphore, diff);
             self.current_limit.store(algorithm_limit, Ordering::Relaxed);
         } else if algorithm_limit < current {
             self.current_limit.store(algorithm_limit, Ordering::Relaxed);
@@ -153,7 +153,7 @@ where
                 let curr = current_limit.load(Ordering::Relaxed);
                 if alg_limit > curr {
                     let diff = alg_limit - curr;
-                    semaphore.add_permits(diff);
+                    add_permits_saturating(&semaphore, diff);
                     current_limit.store(alg_limit, Ordering::Relaxed);
                 } else if alg_limit < curr {
                     current_limit.store(alg_limit, Ordering::Relaxed);
@@ -163,6 +163,13 @@ where
             }),
         }
     }
+}
+
+/// `Semaphore::add_permits` panics when the total would exceed `MAX_PERMITS`;
+/// limits that large are legal for the algorithms, so stop at the maximum.
+fn add_permits_saturating(semaphore: &Semaphore, n: usize) {
+    let room = Semaphore::MAX_PERMITS.saturating_sub(semaphore.available_permits());
+    semaphore.add_permits(n.min(room));
 }
 
 /// Decrements the in-flight counter when dropped.
